@@ -3,6 +3,7 @@ import Tengo.Model.VM
 import Tengo.Model.VerifyProg
 import Tengo.Model.RelocCheck
 import Tengo.Model.Optimizer
+import Tengo.Proofs.C03Twin
 import Tengo.Drivers.C01
 /-!
 `(vm <fuel> <keep> <maxAllocs> <nglobals> ((idx <value>)…) (<const>…) <fn>)` with
@@ -137,7 +138,7 @@ def sameButBodies : List Sexp → List Sexp → Bool
 
 /-- `(reloc (<const>…) <fn> (<const'>…) <fn'>)`: is the second program the first with every function
 relocated (`checkReloc`, sound by `Tengo.Proofs.VMRelocCheck.checkReloc_sound`)? →
-`ok <#functions> <#positions> <#moved>` | `fail <function index>` | `differ` (not the same program up to
+`ok <#functions> <#positions> <#moved> <twin shape 0/1> <bodies are the model's 0/1>` | `fail <function index>` | `differ` (not the same program up to
 function bodies). -/
 def handleReloc : List Sexp → String
   | [.list cs, mainFn, .list cs', mainFn'] =>
@@ -161,7 +162,10 @@ def handleReloc : List Sexp → String
           let nfn := (List.range (code.consts.size + 1)).filter (fun idx => (code.fn idx).isSome) |>.length
           let npos := tabs.foldl (fun n t => n + t.length) 0
           let moved := tabs.foldl (fun n t => n + (t.filter (fun pq => pq.1 != pq.2)).length) 0
-          s!"ok {nfn} {npos} {moved}"
+          -- is this very pair covered by the universal theorem (Tengo.Proofs.C03Reloc.covered_reloc)?
+          let tw := Tengo.Proofs.C03Reloc.checkTwin code
+          let same := Tengo.Proofs.C03Reloc.bodiesAreModel code b
+          s!"ok {nfn} {npos} {moved} {if tw then 1 else 0} {if same then 1 else 0}"
         else
           match (List.range (code.consts.size + 1)).find? (fun idx =>
               match code.fn idx with
